@@ -35,6 +35,10 @@ pub fn un_inverse(input: &[Node], asm: &Assembly) -> InversionResult<Node> {
     thread_local! {
         static CACHE: RefCell<HashMap<u64, InversionResult<Node>>> = Default::default();
     }
+    #[cfg(feature = "verif_hooks")]
+    if crate::verif::c12::bypassed(crate::verif::c12::UN) {
+        CACHE.with(|cache| cache.borrow_mut().clear());
+    }
     let mut hasher = RapidHasher::new(1);
     for node in input {
         node.hash_with_span(&mut hasher);
@@ -96,6 +100,10 @@ fn anti_inverse(input: &[Node], asm: &Assembly, for_un: bool) -> InversionResult
     }
     thread_local! {
         static CACHE: RefCell<HashMap<u64, InversionResult<Node>>> = Default::default();
+    }
+    #[cfg(feature = "verif_hooks")]
+    if crate::verif::c12::bypassed(crate::verif::c12::ANTI) {
+        CACHE.with(|cache| cache.borrow_mut().clear());
     }
     let mut hasher = RapidHasher::new(1);
     for node in input {
